@@ -23,6 +23,7 @@ class Posterior(Distribution):
 
         self.likelihood = likelihood
         self.prior = prior 
+        kwargs.setdefault("name", prior.name) # The posterior is a distribution of the prior's variable
         super().__init__(**kwargs)
 
     @property
